@@ -124,6 +124,8 @@ func genTS(t *rapid.T, seconds bool) *TS {
 func genType(t *rapid.T) string {
 	return rapid.OneOf(
 		rapid.SampledFrom([]string{"", "a", "user.created.v1", "pkg.Type", "*pkg.Ptr", "with space", "quo\"te", "ümläut", "日本", "a/b", "%s", "'; DROP TABLE events;--"}),
+		// strings a column with numeric affinity would rewrite
+		rapid.SampledFrom([]string{"007", "1e3", " 12", "12 ", "1.0", "-0", "+5", "0x10", ".5", "5.", "9223372036854775808", "00", "1e-2", "NaN", "Infinity", "true", "null"}),
 		rapid.StringN(0, 6, 24),
 	).Draw(t, "type")
 }
@@ -132,6 +134,9 @@ func genRef(t *rapid.T) Ref {
 	k := rapid.SampledFrom([]string{"oldest", "next", "next", "event", "event", "append"}).Draw(t, "refkind")
 	return Ref{Kind: k, Idx: rapid.IntRange(0, 63).Draw(t, "refidx")}
 }
+
+// subscription ids: distinct strings, several of which are equal as numbers
+var subIDs = []string{"A", "B", "a", "sub/3", "", "42", "042", "4.2e1", " 42", "42.0", "unknown"}
 
 var limits = []int{-1, 0, 1, 2, 3, 5, 100}
 
@@ -178,10 +183,10 @@ func Gen(store string) func(t *rapid.T) *Case {
 				}
 				op.Limit = rapid.SampledFrom([]int{1, 2, 3, 5, 100, 0}).Draw(t, "limit")
 			case "save":
-				op.Sub = rapid.SampledFrom([]string{"A", "B", "sub/3", ""}).Draw(t, "sub")
+				op.Sub = rapid.SampledFrom(subIDs[:len(subIDs)-1]).Draw(t, "sub")
 				op.From = genRef(t)
 			case "load":
-				op.Sub = rapid.SampledFrom([]string{"A", "B", "sub/3", "", "unknown"}).Draw(t, "sub")
+				op.Sub = rapid.SampledFrom(subIDs).Draw(t, "sub")
 			}
 			c.Ops = append(c.Ops, op)
 		}
